@@ -225,7 +225,10 @@ private:
         m_base_dom(std::move(base_dom)),
         m_rgn_env(std::move(rgn_env)), m_tag_env(std::move(tag_env)),
         m_alloc_env(std::move(alloc_env)),
-        m_rgn_equiv_classes(std::move(rgn_equiv_classes)) {}
+        m_rgn_equiv_classes(std::move(rgn_equiv_classes)) {
+    // ghost_var_man was built by another abstract value
+    m_ghost_var_man.set_get_type_fn(get_type_fn());
+  }
 
   using base_dom_binop_t = std::function<base_abstract_domain_t(
       base_abstract_domain_t, base_abstract_domain_t)>;
@@ -676,6 +679,8 @@ public:
         m_rgn_equiv_classes(o.m_rgn_equiv_classes) {
     crab::CrabStats::count(domain_name() + ".count.copy");
     crab::ScopedCrabStats __st__(domain_name() + ".copy");
+    // the copied manager asks o (not this) for the types of variables
+    m_ghost_var_man.set_get_type_fn(get_type_fn());
   }
   region_domain(region_domain_t &&o)
       : m_is_bottom(o.m_is_bottom),
@@ -684,7 +689,9 @@ public:
         m_rgn_env(std::move(o.m_rgn_env)),
         m_tag_env(std::move(o.m_tag_env)),
         m_alloc_env(std::move(o.m_alloc_env)),
-        m_rgn_equiv_classes(std::move(o.m_rgn_equiv_classes)) {}
+        m_rgn_equiv_classes(std::move(o.m_rgn_equiv_classes)) {
+    m_ghost_var_man.set_get_type_fn(get_type_fn());
+  }
 
   region_domain_t &operator=(const region_domain_t &o) {
     crab::CrabStats::count(domain_name() + ".count.copy");
@@ -697,6 +704,7 @@ public:
       m_tag_env = o.m_tag_env;
       m_alloc_env = o.m_alloc_env;
       m_rgn_equiv_classes = o.m_rgn_equiv_classes;
+      m_ghost_var_man.set_get_type_fn(get_type_fn());
     }
     return *this;
   }
@@ -710,6 +718,7 @@ public:
       m_tag_env = std::move(o.m_tag_env);
       m_alloc_env = std::move(o.m_alloc_env);
       m_rgn_equiv_classes = std::move(o.m_rgn_equiv_classes);
+      m_ghost_var_man.set_get_type_fn(get_type_fn());
     }
     return *this;
   }
